@@ -2829,3 +2829,10 @@ for _p in ("C09", "C10"):
 # ------------------------------------------------------------------------------------------------
 from queries_c10 import QUERIES_C10  # noqa: E402
 QUERIES["C10"] = QUERIES.get("C10", []) + QUERIES_C10
+
+
+# ------------------------------------------------------------------------------------------------
+# C01: the replies of the generic process_message (anchor, split, item diff), executed from bb0 to the final return
+# ------------------------------------------------------------------------------------------------
+from queries_pm import QUERIES_PM  # noqa: E402
+QUERIES["C01"] = QUERIES.get("C01", []) + QUERIES_PM + QUERIES_C08   # C01's anchors name the redb-backed range scan and fingerprint
